@@ -54,6 +54,9 @@ CHECKS = {
  "C17": dict(cat="exploration", ref="DESIGN.md 4/C17", tech="complete boundary/wrap-around argument grids for every public entry point plus property-based generated positions and amounts, with an Err-or-faithful oracle (reference decoder, MD5) and a required-Err oracle for arguments without a faithful reading",
    text="Complete grids {0, min-1, min, max, max+1, 2^8+k, 2^16+k, 2^32+k, usize::MAX}: the full product rate x channels x bits for StreamInfo::new / Stream::new, the full product channels x size for FrameBuf::with_size, fills of FrameBuf / Context / their pair with capacity+extra samples as integers and bytes and byte widths 0..=5, 8, 9, 255, 2^32+2, usize::MAX, encode_with_fixed_block_size in single- and multi-thread mode from a source declaring grid values (one argument at a time; pairs in the thorough tier) with grid block sizes, over-long reads, wrong byte widths and samples outside the width, and encode_fixed_size_frame over a frame-number grid and with out-of-width samples; plus proptest-generated widths, positions and over-fill amounts. Oracle: Err, or a result that states exactly the given values (accessors, serialised STREAMINFO, decoded audio, MD5, frame number); never a panic, hang or reinterpreted value; Err is required for over-fills, disagreeing byte widths, samples outside the width, frame numbers >= 2^31 and block sizes outside 32..=32767.",
    note="Widths 4n / 4n+1 in 4..=25 other than 8/12/16/20/24 are accepted by the library's own verification (side-channel allowance); for those the faithful branch applies. A multi-thread call that does not return within 60 s is inconclusive, not a violation. Ragged fills (length not a multiple of the channel count or byte width) are not part of the property and are not generated."),
+ "C18": dict(cat="exploration", ref="DESIGN.md 4/C18", tech="complete grids of boundary and inconsistent constructor arguments plus property-based generated (mostly consistent, perturbed) arguments; oracle = no panic, and Ok implies verify / write / count_bits / parse-back-identical through the matching parser",
+   text="Every public component constructor (Residual, QuantizedParameters, Constant, Verbatim, FixedLpc, Lpc, FrameHeader, Frame, StreamInfo, Stream, MetadataBlockData::new_unknown) is called over complete grids of boundary and inconsistent arguments (about 110k points: disagreeing lengths, orders above the block size, parameters 0..255, precision 0..usize::MAX, widths with 2^8/2^32 wrap-arounds, block size 0, offsets around every UTF-8 length boundary and 2^36, subframes disagreeing with the header, tags 0..255 and payloads around 2^24 bytes) and over proptest-generated arguments that are mostly consistent and perturbed in one place. All grid points are evaluated and failures are grouped by signature. Oracle: the constructor and verify() never panic; Ok(c) implies verify() is Ok, write() succeeds without panic, the bits written equal count_bits(), and the matching parser consumes exactly those bits and returns a component with an identical field-by-field (serde) representation and identical re-serialisation.",
+   note="Err is always acceptable (the property does not say which arguments are valid). QuantizedParameters has no serialisation of its own and is judged embedded in Lpc::new. The Result-less setters of StreamInfo are only used inside their serialisable ranges. Components above 2^24 bits are counted through a counting sink, not parsed back. The placeholder fields of a fresh StreamInfo are a recorded known finding (KNOWN_FINDINGS.txt)."),
 }
 
 NOT_YET = {}
